@@ -11,9 +11,9 @@ RULE = ("Histories model-phasing -> haplotag -> (partial) unphase -> haplotagpha
         "variants of all types, a known diploid phasing with 1-4 phase sets per contig occupying disjoint intervals, error-free "
         "reads that never overlap two sets (single and paired), planted homopolymer runs; the reads are tagged with the phased "
         "VCF (PS encoding), then a random subset of the phased variants (sometimes all, sometimes none) keeps its phase in the "
-        "VCF handed to haplotagphase (defaults, reference given). Oracle: every call phased in the output has the haplotype "
+        "VCF handed to haplotagphase (default thresholds, reference given; --only-indels and --ignore-read-groups in a quarter of the cases each; a twelfth of the calls has a missing genotype). Oracle: every call phased in the output has the haplotype "
         "order of the original VCF and the phase set of the reads covering it; calls that were phased in the input keep GT and "
-        "PS exactly. Non-trivial = >= 2 phase sets and >= 1 pre-phased variant kept in the input and >= 1 newly phased variant. "
+        "PS exactly; with --only-indels no SNV is newly phased; a call with a missing genotype is never phased. Non-trivial = >= 2 phase sets and >= 1 pre-phased variant kept in the input and >= 1 newly phased variant. "
         "Distinct = distinct generated case.")
 ASSUMPTIONS = [
     "no read overlaps two different phase sets (the proviso of the property); thresholds at their defaults",
@@ -79,7 +79,11 @@ def gen(draw):
         c["read_specs"] = kept
     c["phasing"] = phasing
     c["keep"] = keep
+    # a few calls with a missing genotype (in every VCF of the history)
+    c["missing_gt"] = {contig["name"]: [vi for vi in range(len(c["variants"][contig["name"]])) if draw(st.integers(0, 11)) == 0]
+                       for contig in c["contigs"]}
     c["enc"] = "PS"
+    c["hp_opts"] = {"only_indels": draw(st.integers(0, 3)) == 0, "ignore_read_groups": draw(st.integers(0, 3)) == 0}
     c["tag_reads_of_sets"] = draw(st.sampled_from(["all", "all", "first-set-only"]))
     return c
 
@@ -144,7 +148,8 @@ class PipelinePart:
         buf = io.StringIO()
         with contextlib.redirect_stdout(buf), contextlib.redirect_stderr(buf):
             with open(out, "w") as fo:
-                run_haplotagphase(variant_file=part_vcf, alignment_file=tagged, output=fo, reference=ref, write_command_line_header=False)
+                run_haplotagphase(variant_file=part_vcf, alignment_file=tagged, output=fo, reference=ref, write_command_line_header=False,
+                                  **case.get("hp_opts", {}))
         P.check_readable(out, "haplotagphase")
         before = read_calls(part_vcf, s)
         after = read_calls(out, s)
@@ -159,6 +164,10 @@ class PipelinePart:
         nsets = len({sid for sid, _ in truth.get(s, {}).values()})
         for key, (gt, ph, ps) in after.items():
             b = before[key]
+            if any(a is None for a in gt):
+                if ph:
+                    ctx.violation("pipeline:missing-genotype-phased", "%s:%d has a missing genotype but is phased %r" % (key[0], key[1] + 1, gt))
+                continue
             if b[1]:
                 kept += 1
                 if (gt, ph, ps) != b:
@@ -172,6 +181,10 @@ class PipelinePart:
             if ph:
                 newly += 1
                 o = orig[key]
+                if case.get("hp_opts", {}).get("only_indels"):
+                    v = next(v for v in case["variants"][key[0]] if v["pos"] == key[1])
+                    if len(v["ref"]) == 1 and len(v["alt"]) == 1:
+                        ctx.violation("pipeline:only-indels-phased-snv", "%s:%d is an SNV, newly phased although --only-indels was given" % (key[0], key[1] + 1))
                 if not o[1]:
                     # the original VCF left this variant unphased; reads of the haplotypes still determine it: compare with truth
                     vi = next(i for i, v in enumerate(case["variants"][key[0]]) if v["pos"] == key[1])
@@ -189,6 +202,9 @@ class PipelinePart:
         ctx.nontrivial(nsets >= 2 and kept >= 1 and newly >= 1)
         ctx.label("kept-%s" % ("yes" if kept else "no"))
         ctx.label("tagging-" + case["tag_reads_of_sets"])
+        for k, v in case.get("hp_opts", {}).items():
+            if v:
+                ctx.label("option-" + k)
         if newly:
             ctx.label("newly-phased")
 
